@@ -20,6 +20,29 @@ CK = 'pmutt.io.chemkin'
 Z = '\x00'
 
 
+class Distinct:
+    """equality oracle of an instance: the run conditions (temperatures, pressures, flow rates, mole fractions ...) that
+    the rule names differently are different values - two runs may share T0, but T0 is not T1.  Order is left open."""
+
+    def __init__(self, prefixes):
+        self.prefixes = tuple(prefixes)
+
+    def name(self, r):
+        if isinstance(r, Rat) and r.is_monomial():
+            ats = list(r.atoms())
+            if len(ats) == 1 and r.eq(Rat.atom(ats[0])) and ats[0].rstrip('0123456789b') in self.prefixes:
+                return ats[0]
+        return None
+
+    def __call__(self, a, op, b):
+        if op not in ('==', '!='):
+            return None
+        na, nb = self.name(a), self.name(b)
+        if na is None or nb is None:
+            return None
+        return (na == nb) if op == '==' else (na != nb)
+
+
 def cat_site(I, repo, kw, name):
     """CatSite(name=, site_density=, density=, bulk_specie=) through its constructor"""
     o = I.construct(repo.cls('pmutt.chemkin.CatSite'), [], dict(kw), name=name)
@@ -42,6 +65,9 @@ class World:
         self.repo = repo
         self.names = names or {}
         self.I = I = Interp(repo)
+        # T, Tb, T0, T1 ...: different temperatures; P, Pb, P0 ...: different pressures; Q, A, x: flow rates, area to
+        # volume ratios, mole fractions of number_formats
+        I.order = Distinct(('T', 'P', 'Q', 'A', 'x'))
         D = I.D
         self.sites = []
         self.site_copies = []
@@ -904,7 +930,8 @@ def ea_files(run, repo, w):
                             bad = bad or 'run %d (%s): written %s, the model gives %s' % (
                                 k + 1, ', '.join('%s=%s' % (k_, show(v_)) for k_, v_ in cd.d.items()),
                                 show(f.value, 100), show(wv, 100))
-                run.check(ok, 'DATAFLOW.EA', 'chemkin.write_EA', 'value per condition',
+                run.check(ok, 'DATAFLOW.EA', 'chemkin.write_EA',
+                          'value per condition' + (', runs that share a temperature or a pressure' if ctag else ''),
                           '[%s] the values written for %s are not the %s of the reaction at each run condition: %s'
                           % (label, r.name, meth, bad or '%d values for %d runs' % (len(nums), len(conds))), m, fn)
     conds = cases[0][1]
@@ -915,6 +942,7 @@ def ea_files(run, repo, w):
 def run_files(run, repo):
     m = repo.module(CK)
     I = Interp(repo)
+    I.order = Distinct(('T', 'P', 'Q', 'A', 'x'))
     D = I.D
     n = 4
     Ts, Ps, Qs, As = (ListV([D.sym('%s%d' % (q, i)) for i in range(n)]) for q in 'TPQA')
@@ -1081,6 +1109,8 @@ def check(run, repo):
         'H2O(S) + PT* = OH(S) + H(S)) and a name that begins with a lower-case letter (nC3H7).')
     run.assumptions = ['species names are distinct texts (symbolic, or the spelled set H2 O2 H2O H OH(S) H(S) H2O(S) '
                        'CH3(S) C2H6_s PT* nC3H7); stoichiometric coefficients are small integers',
+                       'run conditions the rule names differently (T, Tb, T0, T1; P0, P1; x00, x10 ...) are different '
+                       'values (equality only; their order is left open)',
                        'E-format widths assume |exponent| < 100; a fixed-point or general format is as wide as the '
                        'witness value of the read-back policy prints']
     run.undecided = ['read_reactions on files pMuTT did not write; species names outside the grammar letter + '
@@ -1145,7 +1175,7 @@ MUTANTS = [
     {'name': 'T_flow.inp file loses its last run', 'expect': ('DATAFLOW.file', 'write_T_flow'),
      'edits': [(K_, "            f_ptr.write(lines_out)\n    else:\n        return lines_out\n\n\ndef write_tube_mole(", "            f_ptr.write('\\n'.join(lines[:-2] + lines[-1:]))\n    else:\n        return lines_out\n\n\ndef write_tube_mole(")]},
     {'name': 'tube_mole.inp file without the count line', 'expect': ('DATAFLOW.file', 'write_tube_mole'),
-     'edits': [(K_, "            f_ptr.write(lines_out)\n    else:\n        return lines_out\n\n\ndef _get_max_reaction_len(", "            f_ptr.write('\\n'.join(ln for ln in lines if 'Number of' not in ln))\n    else:\n        return lines_out\n\n\ndef _get_max_reaction_len(")]},
+     'edits': [(K_, "            f_ptr.write(lines_out)\n    else:\n        return lines_out\n\n\ndef _get_max_reaction_len(", "            f_ptr.write('\\n'.join(lines[:8] + lines[9:]))\n    else:\n        return lines_out\n\n\ndef _get_max_reaction_len(")]},
     {'name': 'transition state inside the equations of the EA file', 'expect': ('DATAFLOW.equation', 'write_EA'),
      'edits': [(K_, "                                   stoich_format=stoich_format,\n                                   include_TS=False))\n        ]", "                                   stoich_format=stoich_format))\n        ]")]},
     {'name': 'adsorbates filed under /GAS/ in tube_mole.inp', 'expect': ('DATAFLOW.phase', 'write_tube_mole'),
@@ -1198,8 +1228,8 @@ MUTANTS = [
      'edits': [(K_, "            cat_site_name, cat_site.site_density))", "            cat_site_name, cat_site.density))")]},
     {'name': 'reader expects a capital letter after the coefficient (nC3H7, iC4H8 ...)', 'expect': ('TABLE.readback', 'read_reactions'),
      'edits': [(K_, "        for RR in Reactants[-1]:\n            stoic = re.findall(r'^[0-9]*', RR)[0]\n", "        for RR in Reactants[-1]:\n            stoic = re.match(r'([0-9]*)[A-Z]', RR).group(1)\n")]},
-    {'name': 'gas.inp written to a file without its SPECIES section', 'expect': ('DATAFLOW.file', 'write_gas'),
-     'edits': [(K_, "            f_ptr.write('\\n'.join(lines))\n", "            f_ptr.write('\\n'.join(ln for ln in lines if ln not in gas_species))\n")]},
+    {'name': 'gas.inp written to a file without the entries of its ELEMENTS section', 'expect': ('DATAFLOW.file', 'write_gas'),
+     'edits': [(K_, "            f_ptr.write('\\n'.join(lines))\n", "            f_ptr.write('\\n'.join(lines[:3] + lines[3 + len(unique_elements):]))\n")]},
     {'name': 'surf.inp written to a file without its first SITE line', 'expect': ('DATAFLOW.file', 'write_surf'),
      'edits': [(K_, "        # Write the file\n        with open(filename, 'w', newline=newline) as f_ptr:\n            f_ptr.write(lines_out)\n", "        # Write the file\n        with open(filename, 'w', newline=newline) as f_ptr:\n            f_ptr.write('\\n'.join(lines[:6] + lines[7:]))\n")]},
 ]
